@@ -26,6 +26,36 @@ CHECKS = {
          "DESIGN.md §4 C02",
          "All statement sequences up to length 4 (quick) / 5 (thorough) over 27 items placed at the zero-page boundary, all 3-level scoping shapes x 10 path forms, and all 1-3 segment configurations with cross references are assembled by the real multi-pass code generator; every successful build is certified by an independent walker: labels and block start/end symbols equal the cursor, every statement's bytes equal the ISA/evaluator result under the implementation's own final symbols, nothing unexplained in the image, segments.x.start/end and the VICE export agree. Sound for programs with several fixed points.",
          "Small-scope: two label names, bounded length; the walker's scoping resolver (innermost-outward, super, dotted) and ISA model are trusted; programs with constructs outside the walker are counted, not judged."),
+ "C03": ("exploration",
+         "bounded-exhaustive enumeration of expression trees against a reference evaluator (batched, failing batches bisected)",
+         "DESIGN.md §4 C03",
+         "All expression trees with up to 2 binary operators over 24 leaves (3 over 4 leaves in thorough) x 16 operators, with unary/parenthesis deviations, rendered with parentheses wherever the documentation fixes no precedence, are assembled through .dword/.byte/.word/.text and compared with an independent checked-i64 evaluator; trees outside the documented domain (overflow, zero divisor, shift count outside 0..31) are counted, not run.",
+         "Reference evaluator and PETSCII/screen-code expectations for a-z 0-9 are trusted; only documented precedence is relied on."),
+ "C06": ("exploration",
+         "bounded-exhaustive input enumeration through the whole pipeline with deterministic non-termination detection (pass-state digests + fuel via hook H1), abort isolation in child processes",
+         "DESIGN.md §4 C06",
+         "Single-character edits of the production-covering corpus, short token strings, an integer sweep (17 directive positions x 31 values incl. wide literals; all pairs for / and %), all import graphs over 2-3 (4) files, convergence stress programs and real-binary file-system faults are pushed through parse, both code generator configurations, formatter and listing. A panic, an aborted child (stack overflow, allocation failure), a recurring block of pass states, exhausted fuel, a silent failure or a diagnostic pointing outside the project is a finding.",
+         "Pass budget 64 and fuel 300k per pass are caps (reported, never verdicts); stages without a pass loop are guarded by a 10 s horizon in child processes; release arithmetic."),
+ "C07": ("exploration",
+         "bounded-exhaustive enumeration of construct nests, differential against an independent AST-level hand expansion",
+         "DESIGN.md §4 C07",
+         "Every nest of depth <= 2 (quick) / 3 (thorough, capped as stated in the evidence) over 59 construct variants (.loop, .if/else, macros, .const, scopes, 8 import forms) x leaf bodies is assembled and compared byte for byte with the program obtained by expanding the constructs by hand at AST level; a program that is rejected while its expansion assembles is a violation.",
+         "The hand expansion implements the documented meaning; pairs whose outputs differ but are both valid fixed points (certificate checker) are counted as ambiguous, not judged."),
+ "C09": ("exploration",
+         "bounded-exhaustive configuration enumeration (radius-bounded around base configurations) against a bank layout reference model, on the real executable",
+         "DESIGN.md §4 C09",
+         "Bank/segment configurations (sizes, fills, filenames, create-segment, starts incl. overlaps/below/dependent, pc, write, bank assignment, output format/filename, definition orders) within a stated number of factor changes of the base configurations are built with the real `mos` binary in scratch directories; exit status and every byte of every output file are compared with a layout model written from the property statement.",
+         "The full product is pruned to radius-bounded neighbourhoods (listed in the evidence); configurations where the statement is silent are counted, not judged."),
+ "C12": ("exploration",
+         "deviation-bounded exhaustive enumeration of commented programs x formatter configurations with token/meaning/comment-sequence oracles",
+         "DESIGN.md §4 C12",
+         "Every base program with one comment at every trivia slot (pairs of slots in thorough) x default and every one-factor formatter configuration (all 960 in thorough) is formatted by the real formatter: the result must parse, keep the token string, assemble to the same bytes/symbols/diagnostics and contain the same comments in order; `mos format` on multi-file projects is checked through the real binary.",
+         "Comment texts are fixed; own lexer for the token/comment clauses; known formatter defects are listed in KNOWN_FINDINGS.txt."),
+ "C13": ("exploration",
+         "deviation-bounded exhaustive enumeration of commented programs x formatter configurations, idempotence oracle",
+         "DESIGN.md §4 C13",
+         "Same space as C12; format(format(p)) must equal format(p) (a third application distinguishes settle / two-cycle / drift).",
+         "Same as C12."),
 }
 
 NOT_YET = {
